@@ -43,8 +43,8 @@ PROPS = {
              "regex-grammar and malformed patterns) and packets over a colliding name alphabet are judged by an independent "
              "first-match reference interpreter; refusal of uninterpretable rule sets is checked in both directions. Finds "
              "counterexamples, proves nothing.",
-        note="Trusted: Go's regexp for the meaning of a single pattern; the harness' reference interpreter. Placement (origin/transit/"
-             "destination) is covered by the mesh part when present.",
+        note="Trusted: Go's regexp for the meaning of a single pattern; the harness' reference interpreter. Placement (origin / transit / "
+             "destination, and the filtering of the reject notice on its way back) is checked on a real three-node chain.",
         technique="property-based testing (rapid): generated rule lists x packets against a reference first-match interpreter",
         assumptions=["regexp semantics of Go's regexp package are shared by reference and implementation; only the anchoring/"
                      "grouping and the parse/refuse decision are independent",
@@ -53,6 +53,9 @@ PROPS = {
             part("pure", "netprops", "TestC12Pure", "C12.pure", inproc=True,
                  quick=dict(checks=20000, shards=4, budget_s=240),
                  thorough=dict(checks=1000000, shards=16, budget_s=1800, shrink="2m")),
+            part("mesh", "netprops", "TestC12Mesh", "C12.mesh",
+                 quick=dict(checks=48, shards=8, budget_s=300),
+                 thorough=dict(checks=1600, shards=16, budget_s=3000, shrink="2m")),
         ],
     ),
     "C20": dict(
